@@ -73,7 +73,8 @@ class I2CSpec(Spec):
 
     def goals(self):
         return ["start", "repeated-start", "stop", "write-acked", "write-nacked", "read-ack", "read-nak",
-                "stretch", "stretch-in-ack-slot", "late-sda-update", "op-right-after-op", "start-with-sda-held-low"]
+                "stretch", "stretch-in-ack-slot", "late-sda-update", "op-right-after-op"]
+        # informational only (depends on the level an implementation parks SCL/SDA at between operations): "start-with-sda-held-low"
 
     def env0(self):
         # (pscl, psda, pisda, piscl, tscl, tsda, op, cnt, nst, nsp, stall)
@@ -117,31 +118,23 @@ class I2CSpec(Spec):
             if upd: return None
             if pscl == 0 and tsda != want: return None         # target has its value in place before SCL rises
         sda = isda & tsda
-        # ---- completion of the running operation (busy low again)
-        completed_now = False
-        if op is not None and not busy:
-            self._complete(op, cnt, nst, nsp, p)
-            op = None; completed_now = True
-        # ---- user
+        # ---- user (inputs of this cycle)
         kw = dict(data_i=0, ack_i=0)
         if newop is not None:
             if busy: return None
-            if completed_now: self.cover["op-right-after-op"] += 1
-            op = newop; cnt = nst = nsp = 0; stall = 0
-            k = op[0]
-            if k == "S":
-                kw["start"] = 1
-                if scl and not sda: self.cover["start-with-sda-held-low"] += 1
+            k = newop[0]
+            if k == "S": kw["start"] = 1
             elif k == "P": kw["stop"] = 1
-            elif k == "W": kw["write"] = 1; kw["data_i"] = op[1]
-            else: kw["read"] = 1; kw["ack_i"] = op[1]
-        elif op is not None:
+            elif k == "W": kw["write"] = 1; kw["data_i"] = newop[1]
+            else: kw["read"] = 1; kw["ack_i"] = newop[1]
+        elif op is not None and busy:
             if op[0] == "W": kw["data_i"] = op[1] ^ 0xFF
             if op[0] == "R": kw["ack_i"] = op[1] ^ 1
         cur.step(scl_i=scl, sda_i=sda, **kw)
         self.outcomes.add((iscl, isda, busy, scl, sda, op and op[0], cnt))
 
-        # ---- wire monitor for this cycle
+        # ---- wire monitor for this cycle.  What the wires show in this cycle was decided before it, so it is
+        #      attributed to the operation that was running when the cycle began (also in the cycle busy falls).
         if op is None:
             if iscl != piscl or isda != pisda:
                 raise Violation("bus-activity-without-operation", dict(scl_release=(piscl, iscl), sda_release=(pisda, isda)))
@@ -187,6 +180,16 @@ class I2CSpec(Spec):
                 stall += 1
                 if stall > self.stall_bound:
                     raise Violation("operation-stalled", dict(operation=self.label((op, 0, 0))["op"], pulses=cnt, cycles_without_activity=stall))
+        # ---- completion of the running operation: busy is low in this cycle
+        completed_now = False
+        if op is not None and not busy:
+            self._complete(op, cnt, nst, nsp, p)
+            op = None; completed_now = True; stall = 0
+        # ---- the operation strobed in this cycle runs from the next cycle on
+        if newop is not None:
+            if completed_now: self.cover["op-right-after-op"] += 1
+            if newop[0] == "S" and scl and not sda: self.cover["start-with-sda-held-low"] += 1
+            op = newop; cnt = nst = nsp = 0; stall = 0
         return (scl, sda, isda, iscl, tscl, tsda, op, cnt, nst, nsp, stall)
 
     def _complete(self, op, cnt, nst, nsp, p):
